@@ -13,7 +13,7 @@ From Coq Require Import String.
 From Verif Require Import Params Base Value Formatter FormatSpec FormatProofs FormatText FormatBound.
 From Verif Require Lexer Literals Parser LexBridge LexBridge2 Complete LexRender ParseRun CollateCompare.
 From Verif Require RoundTripLit RoundTripLeaf RoundTripScan RoundTripDeriv RoundTripProofs RoundTripSets RoundTripTotal.
-From Verif Require ErrorTokens ScanUpto FormatDeep RoundTripScanE.
+From Verif Require ErrorTokens ScanUpto FormatDeep RoundTripScanE ParserPrefix.
 From Verif Require Import RoundTrip.
 Open Scope Z_scope.
 
@@ -391,8 +391,7 @@ Proof. exact RoundTripSets.ascending_sorted. Qed.
        (RoundTripScanE.tokens_of_scan_upto: every formatter output is scannable up to its first elision;
         ErrorTokens.lex_prefix_dot: the scanner on a scannable prefix followed by arbitrary text);
    (2) the parser never consumes an Error token (ErrorTokens.accepted_no_error, from ParserProofs.nonEOF),
-       so ParseSource does NOT return a value: it stops with a located diagnostic for a token of that
-       stream — or, only when the collator panics on a Set that is complete before the dots, with that panic.
+       so ParseSource does NOT return a value: it stops with a located diagnostic for a token of that stream.
    NOT proved: that the diagnostic names the Error token itself rather than an earlier token (it needs
    the parser on a proper prefix of a derivation); C10_elided_not_parsed_partial below pins it for the
    chains of single-item sequences, RoundTripRun.v observes it on every generated elided text. *)
@@ -416,12 +415,7 @@ Theorem C10_elided_not_parsed :
     (exists pre line pos,
        Lexer.lex text = pre ++ [Lexer.mkTok Lexer.TError [46] line pos; Lexer.mkTok Lexer.TEOF [46] line pos] /\
        Forall (fun t => Lexer.ttype_of t <> Lexer.TError) pre) /\
-    match Parser.parse_source fparse crank text with
-    | Parser.PValue _ => False
-    | Parser.PSyntax t => In t (Lexer.lex text)
-    | Parser.PRuntime Parser.RCollator => exists a b, crank a b = None
-    | _ => False
-    end.
+    (exists t, Parser.parse_source fparse crank text = Parser.PSyntax t /\ In t (Lexer.lex text)).
 Proof. exact RoundTripScanE.elided_not_parsed. Qed.
 
 (* the general facts behind it, for any source text *)
@@ -437,6 +431,19 @@ Theorem C10_accepted_source_has_no_error_token :
     Parser.parse_source fparse crank src = Parser.PValue v ->
     Forall (fun t => Lexer.ttype_of t <> Lexer.TError) (Lexer.lex src).
 Proof. exact ErrorTokens.accepted_no_error. Qed.
+
+(* towards the pinned diagnostic in general: the parser on a proper prefix of a derivation that ends in "["
+   followed by an Error token — the shape of an elided output — stops with the diagnostic for THAT token
+   (ParserPrefix.v: estopc = the inductive viable prefixes, the items in front whole derivations; the base
+   case open_error: read from the queue get_next stops on it, handed out from the push-back stack every
+   alternative of parseItems fails on it and parseSequence blames it).  What is still missing to retire
+   the _partial theorem below: the construction of estopc for the FORMATTER's tokens before the first
+   elision (the items in front are derivations by C10_round_trip_derivation). *)
+Theorem C10_prefix_open_error :
+  forall (fparse : list Z -> option Z) (crank : val -> val -> option comparison) (e : Lexer.token) (ts r : list Lexer.token),
+    Lexer.ttype_of e = Lexer.TError -> ParserPrefix.estopc fparse crank e ts ->
+    Parser.parse_tokens fparse crank (ts ++ r) = Parser.PSyntax e.
+Proof. exact ParserPrefix.prefix_open_error. Qed.
 
 (* the diagnostic pinned to the first dot: the chains of single-item sequences deeper than the default
    limit (every unfolding of a self-containing list / array / set / stack / queue) *)
@@ -603,6 +610,7 @@ Print Assumptions C10_round_trip_scannable_upto_elision.
 Print Assumptions C10_elided_not_parsed.
 Print Assumptions C10_lex_scannable_prefix_then_dot.
 Print Assumptions C10_accepted_source_has_no_error_token.
+Print Assumptions C10_prefix_open_error.
 Print Assumptions C10_elided_not_parsed_partial.
 Print Assumptions C10_text_fixpoint_narrow_keys_refuted.
 Print Assumptions C10_text_fixpoint_unsorted_set_refuted.
